@@ -51,4 +51,28 @@ PLANS = {
                      ("c07ts", inst(LeafFam="<-C07Leaves", MaxLeaves=2, MaxCalls=5, OnlyMentioned=False,
                                     Method='{"r0", "r1", "r2", "d0", "d1"}', ScriptFam="<-cScripts1"), {"clones": 1}, {"num": 300000, "depth": 8})],
     },
+    "C08": {
+        "quick": [("c08q", inst(LeafFam="<-C08Leaves", MaxLeaves=2, MaxCalls=3, OnlyMentioned=False, Method='{"r0", "r1", "r2", "d0"}',
+                                ScriptFam="<-cNoScripts", UpFam="<-cUpBoth", Vias="<-cViaVerify"), {"clones": 1}, None)],
+        "thorough": [("c08t", inst(LeafFam="<-C08Leaves", MaxLeaves=2, MaxCalls=4, OnlyMentioned=False, Method='{"r0", "r1", "r2", "d0"}',
+                                   ScriptFam="<-cScripts1", UpFam="<-cUpBoth", Vias="<-cViaAll"), {"clones": 2}, {"num": 500000, "depth": 8})],
+    },
+    "C12": {
+        "quick": [("c12q", inst(LeafFam="<-C12Leaves", MaxLeaves=2, MaxCalls=3), {"clones": 1}, None)],
+        "thorough": [("c12t", inst(LeafFam="<-C12Leaves", MaxLeaves=2, MaxCalls=5), {"clones": 2}, None)],
+    },
+    "C15": {
+        "quick": [("c15q", inst(LeafFam="<-C15LeavesQ", MaxLeaves=2, MaxCalls=2, OnlyMentioned=False, Method='{"r0", "r1", "d0", "d1"}',
+                                ScriptFam="<-cScriptsQ", StrictFam="<-cStrictOnly"), {"clones": 1}, None)],
+        "thorough": [("c15t", inst(LeafFam="<-C15Leaves", MaxLeaves=3, MaxCalls=4, OnlyMentioned=False, Method='{"r0", "r1", "d0", "d1"}',
+                                   ScriptFam="<-cScriptsReq2", UpFam="<-cUpBoth"), {"clones": 2}, {"num": 500000, "depth": 8})],
+    },
+    "C16": {
+        "quick": [("c16q", inst(LeafFam="<-C16LeavesQ", MaxLeaves=2, MaxCalls=2, OnlyMentioned=False, Method='{"r0", "r1", "d1"}',
+                                ScriptFam="<-cScriptsR1"), {"clones": 1}, None),
+                  ("c16qs", inst(LeafFam="<-C16Leaves", MaxLeaves=3, MaxCalls=3, OnlyMentioned=False, Method='{"r0", "r1", "d1"}',
+                                 ScriptFam="<-cScriptsDeep"), {"clones": 1}, {"num": 4000, "depth": 6})],
+        "thorough": [("c16t", inst(LeafFam="<-C16Leaves", MaxLeaves=3, MaxCalls=4, OnlyMentioned=False, Method='{"r0", "r1", "d1"}',
+                                   ScriptFam="<-cScriptsDeep", UpFam="<-cUpBoth"), {"clones": 2}, {"num": 500000, "depth": 8})],
+    },
 }
